@@ -430,6 +430,14 @@ func scenarios() []scen {
 	if thorough {
 		hi, lo = 3, 2
 	}
+	bnd := func(n int) int {
+		// quick: 2 preemptions up to one item, 1 beyond; thorough: 3 / 2
+		if n <= 1 {
+			return hi
+		}
+		return lo
+	}
+	_ = bnd
 	// A. undisturbed
 	for _, mb := range [][]string{{}, {"w1"}, {"w1", "w1"}, {"w0", "w2"}, {"yw1", "w1", "w0"}, {"w1", "w1", "w1"}} {
 		for _, w := range []int{1, 2, len(mb) + 1} {
@@ -437,11 +445,7 @@ func scenarios() []scen {
 				continue
 			}
 			for _, red := range []string{"all1", "all0", "all2", "first1"} {
-				b := hi
-				if len(mb) >= 3 {
-					b = lo
-				}
-				add(scen{entry: "MapReduce", workers: w, mb: mb, red: red, bound: b})
+				add(scen{entry: "MapReduce", workers: w, mb: mb, red: red, bound: bnd(len(mb))})
 			}
 		}
 	}
@@ -517,11 +521,14 @@ func scenarios() []scen {
 
 func TestVerifMapReduce(t *testing.T) {
 	defer vrt.WriteReport()
+	var mine []scen
 	for i, s := range scenarios() {
-		if !vrt.Shard(i) {
-			continue
+		if vrt.Shard(i) {
+			mine = append(mine, s)
 		}
+	}
+	for i, s := range mine {
 		s := s
-		vrt.Explore(vrt.Options{Name: "mr/" + s.name(), Bound: s.bound, Prune: os.Getenv("VRT_NOPRUNE") == ""}, s.run)
+		vrt.Explore(vrt.Options{Name: "mr/" + s.name(), Bound: s.bound, Prune: os.Getenv("VRT_NOPRUNE") == "", Budget: vrt.FairBudget(len(mine) - i)}, s.run)
 	}
 }
